@@ -308,4 +308,51 @@ Proof.
         rewrite app_length in Hn. cbn [length] in Hn. lia. }
   intros p. apply (G (length p)). lia.
 Qed.
+
+(* ---------- totality: what the non-emit operations return; when the model says "not a program" ---------- *)
+Definition is_bad (o : out Arg Res) : bool := match o with OBad => true | _ => false end.
+
+Lemma saved_step s (o : op) :
+  length (saved (fst (step beh s o))) =
+  match o with
+  | SilentEnter => S (length (saved s))
+  | SilentExit => pred (length (saved s))
+  | _ => length (saved s)
+  end.
+Proof.
+  destruct o; cbn [step]; try reflexivity.
+  - destruct (entry_of f st sf last); reflexivity.
+  - destruct (saved s) as [|b r] eqn:E; cbn [fst saved length pred]; [rewrite E|]; reflexivity.
+Qed.
+
+(* OBad is produced exactly by histories that leave a block that is not open *)
+Theorem bad_iff_brackets (h : list op) : forall s,
+  existsb is_bad (outs beh s h) = negb (brackets_ok_from (length (saved s)) h).
+Proof.
+  induction h as [|o h IH]; intros s; [reflexivity|].
+  cbn [outs existsb]. rewrite IH, saved_step.
+  destruct o as [f st sf last|items| |b| | |ev sd a single]; cbn [brackets_ok_from step snd is_bad orb]; try reflexivity.
+  - destruct (entry_of f st sf last); reflexivity.
+  - destruct (saved s) as [|b r]; reflexivity.
+  - unfold emit. destruct (Model.flag s); [reflexivity|].
+    destruct (truthy single).
+    + rewrite emit_loop_single. destruct (filter _ _); reflexivity.
+    + rewrite emit_loop_all. reflexivity.
+Qed.
+
+(* connect: ValueError exactly when the event is to be derived from a name that is not on_<event>;
+   then nothing is registered; otherwise the callback is appended *)
+Theorem connect_outcome (p : list op) f st sf l rest :
+  nth_error (outs beh init (p ++ Connect f st sf l :: rest)) (length p) =
+    Some (match entry_of f st sf l with Some _ => ONone | None => OError end) /\
+  registered (p ++ [Connect f st sf l]) =
+    registered p ++ (match entry_of f st sf l with Some c => [c] | None => [] end) /\
+  (entry_of f st sf l = None <-> st = ByName /\ fn_name f = None).
+Proof.
+  split; [|split].
+  - rewrite outs_app_nth. cbn [step]. destruct (entry_of f st sf l); reflexivity.
+  - rewrite registered_snoc. cbn [kills]. rewrite filter_true by reflexivity. reflexivity.
+  - unfold entry_of. destruct st; [|split; [discriminate|intros [H _]; discriminate]].
+    destruct (fn_name f); split; try discriminate; auto. intros [_ H]. discriminate.
+Qed.
 End Silencing.
